@@ -265,6 +265,11 @@ class Engine:
         self.st.pc.append(cond)
 
     def axiom(self, cond):
+        seen = self.st.__dict__.setdefault('axiom_ids', set())
+        i = cond.get_id()
+        if i in seen:
+            return
+        seen.add(i)
         self.st.axioms.append(cond)
 
     def prove(self, name, cond, kind='assert', props=None, note='', assume_after=True):
